@@ -1023,6 +1023,39 @@ def sqli_export(sc, d, rep, tier, only=None, export=True):
     return beh
 
 
+_KW_CACHE = {}
+
+
+def keyword_frames(big):
+    """Every key of the tree's own keyword table (not the fingerprints) in small frames: exercises every look-up,
+    every phrase merge (multi-word keys in all frames) and the rules that compare token values."""
+    import subprocess
+    if "kw" not in _KW_CACHE:
+        sc = Scratch("kw")
+        try:
+            vh = build_harness(sc)
+            _, jfile = gen_tables(sc, vh)
+            _KW_CACHE["kw"] = [e["key"] for e in json.load(open(jfile))["keywords"] if e["val"] != 70]
+        finally:
+            sc.cleanup()
+    out = []
+    S = vgen.b
+    for k in _KW_CACHE["kw"]:
+        low = [c + 32 if 65 <= c <= 90 else c for c in k]
+        multi = 32 in k
+        frames = [(S("1 "), S(" 1")), (S(""), S("(1)")), (S("select "), S(""))]
+        if multi or big:
+            frames += [(S("1 "), S(" 'x'")), (S("1;"), S(" 1")), (S("1 "), S(" (1)")), (S(""), S("")), (S("1; "), S(" function f")), (S("'; "), S(" view v"))]
+        for pre, post in frames:
+            out.append(pre + low + post)
+        if multi:       # the words of the phrase separated by an inline comment instead of a space
+            cm = []
+            for c in low:
+                cm += [47, 42, 42, 47] if c == 32 else [c]
+            out.append(S("1 ") + cm + S(" x"))
+    return out
+
+
 def sqli_inputs(tier, salt):
     r = vgen.rng(salt)
     big = tier == "thorough"
@@ -1038,6 +1071,7 @@ def sqli_inputs(tier, salt):
     items += list(vgen.periodic_tails(r, 6000 if big else 600))
     items += list(vgen.all_bytes_in_context(vgen.SQL_BYTE_FRAMES if big else vgen.SQL_BYTE_FRAMES[:9]))
     items += list(vgen.literal_bodies(6 if big else 4))
+    items += keyword_frames(big)
     return list(vgen.dedup(items))
 
 
@@ -1701,12 +1735,15 @@ def c05(tier, sc):
     out = sc.path("cases-out.ndjson")
     rc, o = run([vhr, "api-run", pfile, cfile, out], timeout=3000, env={"GORACE": "halt_on_error=0 exitcode=66"})
     race_reports = []
+    crashes = []
     if "DATA RACE" in o:
         race_reports.append(o[-6000:])
-    elif rc != 0:
+    if rc != 0 and ("fatal error" in o or "panic:" in o or "SIGSEGV" in o):
+        crashes.append(("scheduled / history replay", o[-4000:]))
+    elif rc != 0 and "DATA RACE" not in o:
         raise ToolFailure("api-run failed: " + o[-2000:])
     ncalls = 0
-    results = read_ndjson(out)
+    results = read_ndjson(out) if os.path.exists(out) else []
     for ci, (c, r) in enumerate(zip(cases, results)):
         for ob in r["calls"]:
             trace.append({"ev": "call", "case": ci, "how": c["how"], "g": ob["g"], "idx": ob["idx"], "id": ob["id"], "res": ob["res"],
@@ -1721,14 +1758,34 @@ def c05(tier, sc):
                     env={"GORACE": "halt_on_error=0 exitcode=66", "GOMAXPROCS": str([16, 4, 2][rnd % 3])})
         if "DATA RACE" in o:
             race_reports.append(o[-6000:])
-        elif rc != 0:
+        if rc != 0 and ("fatal error" in o or "panic:" in o or "SIGSEGV" in o):
+            crashes.append(("free-running concurrent calls", o[-4000:]))
+            continue
+        elif rc != 0 and "DATA RACE" not in o:
             raise ToolFailure("api-stress failed: " + o[-2000:])
+        if not os.path.exists(sfile):
+            continue
         r = read_ndjson(sfile)[0]
         for ob in r["calls"]:
             trace.append({"ev": "call", "case": -1 - rnd, "how": "stress", "g": ob["g"], "idx": ob["idx"], "id": ob["id"], "res": ob["res"],
                           "fp": ob["fp"], "events": ob["events"], "panic": ob["panic"]})
             ncalls += 1
         trace.append({"ev": "tables", "digest": r["tables"], "case": -1 - rnd})
+    # a cold process whose very first calls overlap (lazily built structures): several fresh processes, plain build
+    for rnd in range(6 if big else 3):
+        rc, o = run([vh, "api-stress", pfile, sfile, str(ng), "20", str(vlib.seed() * 100 + rnd)], timeout=600)
+        if rc != 0 and ("fatal error" in o or "panic:" in o or "SIGSEGV" in o):
+            crashes.append(("cold start, overlapping first calls", o[-4000:]))
+        elif rc != 0:
+            raise ToolFailure("api-stress (cold) failed: " + o[-2000:])
+        else:
+            r = read_ndjson(sfile)[0]
+            for ob in r["calls"]:
+                trace.append({"ev": "call", "case": -100 - rnd, "how": "cold", "g": ob["g"], "idx": ob["idx"], "id": ob["id"], "res": ob["res"],
+                              "fp": ob["fp"], "events": ob["events"], "panic": ob["panic"]})
+                ncalls += 1
+    for where, txt in crashes[:3]:
+        rep.violation("the process crashed during %s:\n%s" % (where, txt[-1500:]), {"kind": "api.crash", "where": where, "report": txt[-3000:]})
     for rr in race_reports[:3]:
         rep.violation("the race detector reported a data race during concurrent calls:\n" + rr[-1500:], {"kind": "api.race", "report": rr[-3000:]})
     tfile2 = sc.path("api-trace.ndjson")
